@@ -249,6 +249,10 @@ def canon(x):
     return json.dumps(x, sort_keys=True, separators=(",", ":"))
 
 
+def canon_safe(x) -> str:
+    return json.dumps(x, sort_keys=True, default=str)
+
+
 class Check:
     """Bookkeeping for one run of one property's check."""
 
@@ -313,7 +317,8 @@ class Check:
         known_keys = {k["key"]: k for k in known}
         real = []
         seen_keys = set()
-        for v in self.violations:
+        # for each key keep the smallest failing input (a cheap stand-in for shrinking)
+        for v in sorted(self.violations, key=lambda v: len(canon_safe(v["replay"]))):
             if v["key"] in seen_keys:
                 continue
             seen_keys.add(v["key"])
